@@ -1,6 +1,25 @@
 import FuraxProofs.Props.C14
+import FuraxProofs.Props.C14Eval
 #print axioms Furax.C14.rewriting_shape
 #print axioms Furax.C14.transposed_is_adjoint
 #print axioms Furax.C14.rejected_iff
 #print axioms Furax.C14.rejects_without_single_contracted_axis
 #print axioms Furax.C14.rejects_without_single_free_axis
+#print axioms Furax.C14.einsum2_eq_terms
+#print axioms Furax.C14.transposedSubscripts_ok
+#print axioms Furax.C14.einsum2_pairing
+#print axioms Furax.C14.terms_adjoint
+#print axioms Furax.C14.einsum2_adjoint
+#print axioms Furax.C14.einsum2_add
+#print axioms Furax.C14.einsum2_smul
+#print axioms Furax.Einsum.einsumCore_pairing
+#print axioms Furax.Einsum.einsumCore_map
+#print axioms Furax.Einsum.einsumTerms_adjoint
+#print axioms Furax.C14.terms_adjoint_ellipsis
+#print axioms Furax.C14.einsum2_adjoint_ellipsis
+#print axioms Furax.Einsum.einsumCore_adjoint
+#print axioms Furax.Einsum.einsumCore_entry
+#print axioms Furax.Einsum.einsumTerms_entry
+#print axioms Furax.C14.einsum2_entry
+#print axioms Furax.C14.outShape_spec
+#print axioms Furax.C14.einsum2_error
